@@ -201,7 +201,7 @@ func constrain(k *xzCase, big bool) {
 	if k.Family == "one" {
 		k.N = 1
 	}
-	if k.Family == "sandwich" && k.N < 280000 && k.Part != "bytes" {
+	if (k.Family == "sandwich" || k.Family == "sandwich2") && k.N < 280000 && k.Part != "bytes" {
 		k.N = 280000 + k.N%20000 // the raw chunk in the middle needs > 128 KiB of incompressible data
 		if k.BlockSize > 0 && k.BlockSize < 1<<20 {
 			k.BlockSize = 0
@@ -225,7 +225,7 @@ func constrain(k *xzCase, big bool) {
 	if k.Matcher == 1 {
 		lim := 300000
 		switch k.Family {
-		case "sandwich":
+		case "sandwich", "sandwich2", "noisyrep":
 			lim = 300000
 		case "zeros", "run", "zeroprefix", "periodic", "lowent", "altseg", "nearrep", "maxrun", "randzeros":
 			lim = 12000
